@@ -24,22 +24,39 @@ def atomic_calls(b):
 
 def run(ctx):
     F = ctx.facts("dbg")
-    readouts = [b for b in F.all_bodies(MR) if b.name == "readout" and any(c.name == "visit_counters" for c in b.calls())]
+    VISITS = ("visit_counters", "visit_gauges", "visit_histograms")
+
+    def visit_sites(b):
+        """registry walks of a readout body: [(block of b where the walk runs, visit name, per-item closure)] - a walk written in the
+        body itself, or inside a private helper the body calls (`counters: take_counter_deltas(registry, ..)`)"""
+        out = []
+        for c in b.calls():
+            if c.name in VISITS:
+                cl = closure_args(F, c)
+                if cl:
+                    out.append((c.bb, c.name, cl[0]))
+            else:
+                for hb in local_callee_bodies(F, c):
+                    if hb.crate == MR and hb.kind != "Closure" and hb.name != "readout":
+                        for x in hb.calls():
+                            if x.name in VISITS and closure_args(F, x):
+                                out.append((c.bb, x.name, closure_args(F, x)[0]))
+        return out
+    readouts = [b for b in F.all_bodies(MR) if b.name == "readout" and any(n == "visit_counters" for _, n, _ in visit_sites(b))]
     ctx.floor("R20.1", "readout implementations visiting the registry", len(readouts), 1)
     for b in readouts:
         key = fnkey(b)
-        vis = {}
-        for c in b.calls():
-            if c.name in ("visit_counters", "visit_gauges", "visit_histograms"):
-                cl = closure_args(F, c)
-                if cl:
-                    vis[c.name] = cl[0]
+        vsites = visit_sites(b)
+        vis = {n: cl for _, n, cl in vsites}
         ctx.check(set(vis) == {"visit_counters", "visit_gauges", "visit_histograms"}, "R20.1", key + "#visits-all-three-kinds", loc(b), "readout does not visit counters, gauges and histograms: %s" % sorted(vis))
         # ---- R20.6 the described units are snapshotted after the registry walk (a metric seen by the walk was described before it was
         # registered, so a later snapshot contains its unit; an earlier one may not)
         bpr = Prov(b)
         bdom = b.dominators()
-        visits = [c for c in b.calls() if c.name in ("visit_counters", "visit_gauges", "visit_histograms")]
+        class _V:       # a walk site, positioned in this body
+            def __init__(self, bb):
+                self.bb = bb
+        visits = [_V(bb_) for bb_, _, _ in vsites]
         n_units = 0
         for i in b.live_blocks():
             for st in b.stmts(i):
@@ -100,6 +117,10 @@ def run(ctx):
                 for p in pushes:
                     for i, t, yes, no in controlling_switches(cb, p.bb):
                         rv = discr_def(cb, i, t)
+                        # `match delta { 0 => .., _ => push }`: a switch on the taken value itself with an arm for 0
+                        if ("call", r.bb) in pr.operand(t["discr"]) and any(v_ == 0 for v_, _ in t["targets"]):
+                            conds.append(("value-vs-0", "switch"))
+                            continue
                         if rv is None:
                             # a plain bool (emit_zero_counters)
                             o = pr.operand(t["discr"])
@@ -156,10 +177,12 @@ def run(ctx):
         # adapter form (filter / map closures), plain loop form, or a private helper: all are read (same reading as R11.1's drains)
         from rules.c11 import keeps_nonempty
         units = [b] + list(F.closures_of(b))
-        for c_ in b.calls():
-            for hb in local_callee_bodies(F, c_) + fn_item_args(F, c_):
-                if hb.crate == MR and hb not in units and hb.name != "midpoint":
-                    units += [hb] + list(F.closures_of(hb))
+        for _round in range(2):
+            for u_ in list(units):
+                for c_ in u_.calls():
+                    for hb in local_callee_bodies(F, c_) + fn_item_args(F, c_):
+                        if hb.crate == MR and hb not in units and hb.name != "midpoint":
+                            units += [hb] + list(F.closures_of(hb))
         is_emit = lambda s_: s_["k"] == "assign" and s_["rv"]["k"] == "agg" and (s_["rv"].get("adt") or "").endswith("Bucket") and "count" in (s_["rv"].get("fields") or [])
         kn = keeps_nonempty(units, b, is_emit)
         ctx.check(kn == "keep-iff-count>0", "R20.2", fnkey(b) + "#keeps-non-empty-buckets", loc(b), "drain does not keep exactly the buckets with count > 0 (%s)" % kn)
@@ -312,7 +335,33 @@ def run(ctx):
             x[0] == "call" and "unit" in b.term(x[1])["callee"]["name"] for x in pr.operand(ins[0].args[2]))
         ctx.check(ok, "R20.4", fnkey(b) + "#records-unit-under-name", loc(b), "%s does not record the converted unit under the metric's name" % b.name)
     # ------------------------------------------------------------------ R20.5 reporter (call-site facts)
-    reps = [b for b in F.all_bodies(MR) if b.kind == "Closure" and "spawn_metric_reporter" in b.path and any(c.name == "readout" for c in b.calls())]
+    # a publish step = `destination.append(recorder.readout())`: written in the task itself, or as a closure the task is handed and calls
+    def is_publish_unit(pb):
+        pr_ = Prov(pb)
+        ros_ = [c for c in pb.calls() if c.name == "readout"]
+        aps_ = [c for c in pb.calls() if c.is_trait_method("EntrySink", "append") or c.name == "append"]
+        return len(ros_) == 1 and len(aps_) == 1 and ("call", ros_[0].bb) in pr_.operand(aps_[0].args[1]) and pb.must_pass([aps_[0].bb])
+    spawners = [b for b in F.all_bodies(MR) if b.kind == "Fn" and any(cb.kind == "Closure" and any(c.name in ("select", "cancelled") for c in cb.calls()) for cb in F.closures_of(b))]
+    handed = {}      # spawner def -> names under which the task captures a parameter that every caller binds to a publish step
+    for sp in spawners:
+        per_param = {}
+        for cs in F.callers_of(sp.path, crates=[MR]):
+            for ai, a_ in enumerate(cs.args):
+                for fb in fn_operand_bodies(F, cs.body, a_):
+                    per_param.setdefault(ai + 1, []).append(fb)
+        spr = Prov(sp)
+        for p_, fbs in per_param.items():
+            if not all(is_publish_unit(fb) for fb in fbs):
+                continue
+            for i_ in sp.live_blocks():
+                for s_ in sp.stmts(i_):
+                    if s_["k"] == "assign" and s_["rv"]["k"] == "agg" and s_["rv"].get("closure"):
+                        for fname, op_ in zip(s_["rv"].get("fields", []), s_["rv"]["ops"]):
+                            if any(x[0] == "arg" and x[1] == p_ for x in spr.operand(op_)):
+                                handed.setdefault(sp.def_, set()).add(fname)
+    reps = [b for b in F.all_bodies(MR) if b.kind == "Closure" and any(b.path.startswith(sp.path) for sp in spawners) and
+            (any(c.name == "readout" for c in b.calls()) or any(c.name in ("call", "call_mut", "call_once") and "ops::function" in c.def_ for c in b.calls()))
+            and any(c.name in ("select", "cancelled") for c in b.calls())]
     ctx.floor("R20.5", "reporter task bodies", len(reps), 1)
     for b in reps:
         pr = Prov(b)
@@ -324,6 +373,10 @@ def run(ctx):
             mine = [r.bb for r in ros if ("call", r.bb) in o]
             ctx.check(len(mine) == 1, "R20.5", fnkey(b) + "#append%d-takes-fresh-readout" % aps.index(a), loc(b, a.bb), "an append in the reporter does not take the result of a readout()")
             used |= set(mine)
-        ctx.check(len(aps) == 2 and len(ros) == 2 and used == {r.bb for r in ros}, "R20.5", fnkey(b) + "#no-readout-discarded", loc(b),
-                  "readout()/append sites: %d/%d; a readout whose result is not appended loses the swapped counters (and one on shutdown is required)" % (len(ros), len(aps)))
+        sp_def = [sp.def_ for sp in spawners if b.path.startswith(sp.path)]
+        pubs = handed.get(sp_def[0], set()) if sp_def else set()
+        inv = [c for c in b.calls() if c.name in ("call", "call_mut", "call_once") and "ops::function" in c.def_ and c.args and
+               any(x[0] == "arg" and x[1] == 1 and any(f_ in pubs for f_ in x[2]) for x in pr.operand(c.args[0]))]
+        ctx.check(len(aps) + len(inv) == 2 and len(ros) == len(aps) and used == {r.bb for r in ros}, "R20.5", fnkey(b) + "#no-readout-discarded", loc(b),
+                  "readout()/append sites: %d/%d (+%d calls of a handed publish step); a readout whose result is not appended loses the swapped counters (and one on shutdown is required)" % (len(ros), len(aps), len(inv)))
     return EXPL
